@@ -55,3 +55,54 @@ Definition checkN (k : caseN) : bool :=
         | _ => false
         end
       else true).
+
+(* ---- ResizingOperator: range construction, offset, call / adjoint / inverse ---- *)
+From Verif Require Import C16.ModelOp.
+Record caseOp := { o_fixed : bool; o_m : pmode; o_c : Q;
+                   o_dom : list (Q * Q * Z * (bool * bool));        (* min, max, n, nodes_on_bdry *)
+                   o_nnew : list Z; o_off : list (option Z); o_flags : list (bool * bool);
+                   o_rmin : list Q; o_rmax : list Q; o_rcs : list Q; o_offset : list Z;
+                   o_x : list Q; o_fx : impl_out; o_y : list Q; o_ay : impl_out; o_inv : impl_out }.
+
+Definition mk_axis (d : Q * Q * Z * (bool * bool)) : @axis Q :=
+  let '(mn, mx, n, (bl, br)) := d in {| a_min := mn; a_max := mx; a_n := n; a_bl := bl; a_br := br |}.
+Fixpoint range_axes (fixed : bool) (doms : list (Q * Q * Z * (bool * bool))) (nnew : list Z)
+         (offs : list (option Z)) (flags : list (bool * bool)) : list (@axis Q) :=
+  match doms, nnew, offs, flags with
+  | d :: ds, n :: ns, o :: os, (bl, br) :: fs =>
+      resize_axis fixed (mk_axis d) n o bl br :: range_axes fixed ds ns os fs
+  | _, _, _, _ => []
+  end.
+Fixpoint model_offsets (fixed : bool) (doms : list (Q * Q * Z * (bool * bool))) (nnew : list Z)
+         (offs : list (option Z)) : list Z :=
+  match doms, nnew, offs with
+  | d :: ds, n :: ns, o :: os =>
+      (if (n =? a_n (mk_axis d))%Z then 0%Z else Z.abs (fst (num_lr fixed (a_n (mk_axis d)) n o)))
+        :: model_offsets fixed ds ns os
+  | _, _, _ => []
+  end.
+Definition optol : Q := 1 # 1000000000000.
+Definition out_eq (a : outcome (list Q)) (b : impl_out) : bool :=
+  match a, b with
+  | Ok r, IOk r' => Qs_eq r' r
+  | ValueErr, IValueErr => true
+  | _, _ => false
+  end.
+
+Definition checkOp (k : caseOp) : bool :=
+  let axes := range_axes (o_fixed k) (o_dom k) (o_nnew k) (o_off k) (o_flags k) in
+  let ish := map (fun d => Z.to_nat (a_n (mk_axis d))) (o_dom k) in
+  let osh := map Z.to_nat (o_nnew k) in
+  let offs := model_offsets (o_fixed k) (o_dom k) (o_nnew k) (o_off k) in
+  let linear := negb (pmode_eqb (o_m k) PConstant) || Qeq_bool (o_c k) 0 in
+  Qsclose optol 0 (o_rmin k) (map a_min axes)
+  && Qsclose optol 0 (o_rmax k) (map a_max axes)
+  && Qsclose optol 0 (o_rcs k) (map cell_side axes)
+  && Zeqs (o_offset k) offs
+  && out_eq (resizeN (o_m k) Forward (o_c k) true ish (o_x k) osh offs) (o_fx k)
+  && (if linear then out_eq (resizeN (o_m k) Adjoint 0 true osh (o_y k) ish offs) (o_ay k)
+      else match o_ay k with IOtherErr => true | _ => false end)
+  && match o_fx k with
+     | IOk fx => out_eq (resizeN (o_m k) Forward (o_c k) true osh fx ish offs) (o_inv k)
+     | _ => true
+     end.
